@@ -173,6 +173,7 @@ fn call(s: &Stream, from: &'static str, mode: Mode, known: bool) -> CallSpec {
         mode,
         rfault: None,
         docs: if known { Some(s.docs.clone()) } else { None },
+        values: if known { Some(s.values.clone()) } else { None },
         over_report: None,
     }
 }
@@ -205,6 +206,7 @@ fn streams(cx: &mut Ctx, count: u64, seed: u64) {
                         wfault: None,
                         accept: if rng.chance(1, 4) { Accept::Random(Rng::new(rng.next()), 5) } else { Accept::All },
                         keyed: true,
+                        key_text: None,
                         label: format!("stream/{}/{}docs", s.fmt, s.docs.len()),
                     };
                     cx.run(&case, s.docs.len() >= 2);
@@ -233,7 +235,7 @@ fn histories(cx: &mut Ctx, count: u64, seed: u64) {
             let from = if !s.docs.is_empty() && rng.chance(1, 3) && detected_as(&s.bytes) == Some(s.fmt) { "detect" } else { s.fmt };
             calls.push(call(&s, from, mode, true));
         }
-        let case = CaseSpec { to, calls, wfault: None, accept: Accept::All, keyed: false, label: format!("history/{ncalls}calls") };
+        let case = CaseSpec { to, calls, wfault: None, accept: Accept::All, keyed: false, key_text: None, label: format!("history/{ncalls}calls") };
         cx.run(&case, ncalls >= 2);
     }
 }
@@ -247,10 +249,21 @@ fn faults(cx: &mut Ctx, count: u64, seed: u64) {
         if s.bytes.len() > 400 {
             continue;
         }
-        let det_known = detected_as(&s.bytes) == Some(s.fmt);
+        let s_any = s;
         for to in TARGETS {
+            // a TOML target gets a document it can represent (otherwise there is no output to fault)
+            let s = if to == "toml" && s_any.fmt != "toml" && rng.chance(3, 4) {
+                let v = val::gen_toml_doc(&mut rng);
+                match build_stream(s_any.fmt, &[v], &mut rng, true) {
+                    Some(t) if t.bytes.len() <= 400 => t,
+                    _ => s_any.clone(),
+                }
+            } else {
+                s_any.clone()
+            };
+            let det_known = detected_as(&s.bytes) == Some(s.fmt);
             // fault-free output length
-            let base = CaseSpec { to, calls: vec![call(&s, s.fmt, Mode::Slice, true)], wfault: None, accept: Accept::All, keyed: false, label: "fault-free".into() };
+            let base = CaseSpec { to, calls: vec![call(&s, s.fmt, Mode::Slice, true)], wfault: None, accept: Accept::All, keyed: false, key_text: None, label: "fault-free".into() };
             let out_len = cx.run(&base, false).output.len();
             for k in 0..=s.bytes.len() {
                 let from = if det_known && !s.docs.is_empty() && rng.chance(1, 3) { "detect" } else { s.fmt };
@@ -262,17 +275,34 @@ fn faults(cx: &mut Ctx, count: u64, seed: u64) {
                 };
                 let mut c = call(&s, from, Mode::Reader(sc), true);
                 c.rfault = Some(k);
-                let case = CaseSpec { to, calls: vec![c], wfault: None, accept: Accept::All, keyed: false, label: format!("rfault@{k}") };
+                let case = CaseSpec { to, calls: vec![c], wfault: None, accept: Accept::All, keyed: false, key_text: None, label: format!("rfault@{k}") };
                 cx.run(&case, true);
             }
             for k in 0..out_len.min(300) {
                 let mode = if rng.chance(1, 2) { Mode::Slice } else { Mode::Reader(Sched::Random(Rng::new(rng.next()), 8)) };
-                let case = CaseSpec { to, calls: vec![call(&s, s.fmt, mode, true)], wfault: Some(k), accept: if rng.chance(1, 3) { Accept::Fixed(1) } else { Accept::All }, keyed: false, label: format!("wfault@{k}") };
+                let case = CaseSpec { to, calls: vec![call(&s, s.fmt, mode, true)], wfault: Some(k), accept: if rng.chance(1, 3) { Accept::Fixed(1) } else { Accept::All }, keyed: false, key_text: None, label: format!("wfault@{k}") };
                 cx.run(&case, true);
+            }
+            if s.fmt == "yaml" && !s.bytes.is_empty() && to != "toml" {
+                // the same text in UTF-16/32: the reader fails at every offset (inside and between code units)
+                let text = String::from_utf8_lossy(&s.bytes).into_owned();
+                let enc = *rng.pick(&val::ENCODINGS);
+                let bytes = Rc::new(val::reencode(&text, enc, rng.chance(1, 2)));
+                for k in 0..=bytes.len() {
+                    let sc = match rng.below(3) {
+                        0 => Sched::All,
+                        1 => Sched::Fixed(1),
+                        _ => Sched::Random(Rng::new(rng.next()), 8),
+                    };
+                    let from = if rng.chance(1, 3) { "detect" } else { "yaml" };
+                    let c = CallSpec { bytes: bytes.clone(), from, true_fmt: None, mode: Mode::Reader(sc), rfault: Some(k), docs: None, values: None, over_report: None };
+                    let case = CaseSpec { to, calls: vec![c], wfault: None, accept: Accept::All, keyed: false, key_text: None, label: format!("rfault@{k}/{enc}") };
+                    cx.run(&case, true);
+                }
             }
             for acc in [Accept::Fixed(1), Accept::Fixed(3), Accept::Random(Rng::new(rng.next()), 7)] {
                 let mode = if rng.chance(1, 2) { Mode::Slice } else { Mode::Reader(Sched::Fixed(2)) };
-                let case = CaseSpec { to, calls: vec![call(&s, s.fmt, mode, true)], wfault: None, accept: acc, keyed: false, label: "short-writes".into() };
+                let case = CaseSpec { to, calls: vec![call(&s, s.fmt, mode, true)], wfault: None, accept: acc, keyed: false, key_text: None, label: "short-writes".into() };
                 cx.run(&case, true);
             }
         }
@@ -351,8 +381,8 @@ fn unknown(cx: &mut Ctx, count: u64, seed: u64) {
                 modes.push(Mode::Reader(Sched::Cuts(cuts)));
             }
             for m in modes {
-                let c = CallSpec { bytes: bytes.clone(), from, true_fmt: None, mode: m, rfault: None, docs: None, over_report: None };
-                let case = CaseSpec { to, calls: vec![c], wfault: None, accept: Accept::All, keyed: true, label: format!("mutated/{}", s.fmt) };
+                let c = CallSpec { bytes: bytes.clone(), from, true_fmt: None, mode: m, rfault: None, docs: None, values: None, over_report: None };
+                let case = CaseSpec { to, calls: vec![c], wfault: None, accept: Accept::All, keyed: true, key_text: None, label: format!("mutated/{}", s.fmt) };
                 cx.run(&case, true);
             }
         }
@@ -387,7 +417,7 @@ fn lag(cx: &mut Ctx, count: u64, seed: u64) {
                     if from == "detect" && !det_known {
                         continue;
                     }
-                    let case = CaseSpec { to, calls: vec![call(&s, from, Mode::Reader(sc.clone()), true)], wfault: None, accept: Accept::All, keyed: false, label: format!("lag/{}/{}docs", s.fmt, n) };
+                    let case = CaseSpec { to, calls: vec![call(&s, from, Mode::Reader(sc.clone()), true)], wfault: None, accept: Accept::All, keyed: false, key_text: None, label: format!("lag/{}/{}docs", s.fmt, n) };
                     cx.run(&case, true);
                 }
             }
@@ -396,6 +426,56 @@ fn lag(cx: &mut Ctx, count: u64, seed: u64) {
 }
 
 /// Replaces one randomly chosen node of the tree (any path of seq-index / map-key / map-value steps).
+/// YAML streams in UTF-16/32 (LE/BE, with and without BOM) must translate exactly like the UTF-8
+/// text, from a slice and from a reader under any read schedule (C07, C02).
+fn encodings(cx: &mut Ctx, count: u64, seed: u64) {
+    for i in 0..count {
+        let mut rng = Rng::derive(seed, "encodings", i);
+        let s = gen_stream(&mut rng, "yaml", 3, false);
+        let Ok(text) = std::str::from_utf8(&s.bytes) else { continue };
+        if text.is_empty() {
+            continue;
+        }
+        let ascii_only = rng.chance(1, 3);
+        let text: String = if ascii_only {
+            // an ASCII-only document (the defect class of the pinned tree)
+            let opts = GenOpts { max_depth: 2, max_width: 3, ..GenOpts::common() };
+            let v = V::Map(vec![(V::Str("k".into()), V::Int(rng.below(100) as i128)), (V::Str("list".into()), V::Seq(vec![V::Bool(true), V::Str("abc".into())]))]);
+            let _ = opts;
+            val::to_yaml(&v, val::Spell { seed: 0 }).unwrap()
+        } else {
+            text.to_owned()
+        };
+        let key_text = Rc::new(text.clone().into_bytes());
+        for to in ["json", "yaml", "msgpack"] {
+            for from in ["yaml", "detect"] {
+                // reference: the UTF-8 text from a slice
+                let mut variants: Vec<(String, Vec<u8>)> = vec![("utf8".into(), text.clone().into_bytes())];
+                for enc in val::ENCODINGS {
+                    for bom in [false, true] {
+                        variants.push((format!("{enc}{}", if bom { "+bom" } else { "" }), val::reencode(&text, enc, bom)));
+                    }
+                }
+                for (name, bytes) in variants {
+                    let bytes = Rc::new(bytes);
+                    let len = bytes.len();
+                    let mut modes = vec![Mode::Slice, Mode::Reader(Sched::All), Mode::Reader(Sched::Fixed(1)), Mode::Reader(Sched::Fixed(3)), Mode::Reader(Sched::Random(Rng::new(rng.next()), 7))];
+                    if len > 8 {
+                        let c1 = rng.range(1, len as u64 - 1) as usize | 1; // an odd offset: inside a code unit
+                        modes.push(Mode::Reader(Sched::Cuts(vec![c1, (c1 + 5).min(len)])));
+                        modes.push(Mode::Reader(Sched::Cuts(vec![rng.range(1, 3) as usize])));
+                    }
+                    for m in modes {
+                        let c = CallSpec { bytes: bytes.clone(), from, true_fmt: None, mode: m, rfault: None, docs: None, values: None, over_report: None };
+                        let case = CaseSpec { to, calls: vec![c], wfault: None, accept: Accept::All, keyed: true, key_text: Some(key_text.clone()), label: format!("encoding/{name}") };
+                        cx.run(&case, name != "utf8");
+                    }
+                }
+            }
+        }
+    }
+}
+
 pub fn replace_random_node(v: &mut V, rng: &mut Rng, newv: &V, allow_key: bool) {
     let n = v.nodes() as u64;
     let mut target = rng.below(n);
@@ -482,7 +562,7 @@ fn toml(cx: &mut Ctx, count: u64, seed: u64) {
             };
             calls.push(call(&s, s.fmt, mode, true));
         }
-        let case = CaseSpec { to: "toml", calls, wfault: None, accept: if rng.chance(1, 5) { Accept::Fixed(2) } else { Accept::All }, keyed: false, label: format!("toml/{ncalls}calls") };
+        let case = CaseSpec { to: "toml", calls, wfault: None, accept: if rng.chance(1, 5) { Accept::Fixed(2) } else { Accept::All }, keyed: false, key_text: None, label: format!("toml/{ncalls}calls") };
         cx.run(&case, true);
     }
 }
@@ -501,8 +581,8 @@ fn witnesses(cx: &mut Ctx) {
         let bytes = Rc::new(bytes.to_vec());
         for to in tos {
             for m in [Mode::Slice, Mode::Reader(Sched::All), Mode::Reader(Sched::Fixed(1))] {
-                let c = CallSpec { bytes: bytes.clone(), from, true_fmt: None, mode: m, rfault: None, docs: None, over_report: None };
-                let case = CaseSpec { to, calls: vec![c], wfault: None, accept: Accept::All, keyed: true, label: "witness".into() };
+                let c = CallSpec { bytes: bytes.clone(), from, true_fmt: None, mode: m, rfault: None, docs: None, values: None, over_report: None };
+                let case = CaseSpec { to, calls: vec![c], wfault: None, accept: Accept::All, keyed: true, key_text: None, label: "witness".into() };
                 cx.run(&case, true);
             }
         }
@@ -510,8 +590,8 @@ fn witnesses(cx: &mut Ctx) {
     // the same void YAML input with its (empty) document list known, for the C03 reading of the finding
     for to in ["json", "yaml"] {
         for m in [Mode::Slice, Mode::Reader(Sched::All)] {
-            let c = CallSpec { bytes: Rc::new(vec![]), from: "yaml", true_fmt: Some("yaml"), mode: m, rfault: None, docs: Some(vec![]), over_report: None };
-            let case = CaseSpec { to, calls: vec![c], wfault: None, accept: Accept::All, keyed: false, label: "witness-known".into() };
+            let c = CallSpec { bytes: Rc::new(vec![]), from: "yaml", true_fmt: Some("yaml"), mode: m, rfault: None, docs: Some(vec![]), values: Some(vec![]), over_report: None };
+            let case = CaseSpec { to, calls: vec![c], wfault: None, accept: Accept::All, keyed: false, key_text: None, label: "witness-known".into() };
             cx.run(&case, true);
         }
     }
@@ -531,6 +611,7 @@ pub fn record(scenario: &str, out_path: &str, count: u64) {
             "lag" => lag(&mut cx, count, seed),
             "toml" => toml(&mut cx, count, seed),
             "witnesses" => witnesses(&mut cx),
+            "encodings" => encodings(&mut cx, count, seed),
             other => {
                 eprintln!("unknown scenario {other}");
                 std::process::exit(2);
